@@ -2,6 +2,7 @@
 DESIGN.md 5.13, 5.14, Appendix B, section 6 (K1)."""
 import json
 import os
+import re
 import shutil
 
 import vlib
@@ -42,12 +43,16 @@ PROPERTIES = {
 }
 
 RULES = {
-    "C13": "one case = one logged schedule (trace) of the real runner functions against step-controlled fakes: 6 fixed "
+    "C13": "one case = one logged schedule (trace) of the real runner functions against step-controlled fakes: (a) model "
+           "traces from the exhaustive exploration of the LTS for {1 receiver, 1 transmitter, 1 application thread} "
+           "(complete reachable abstract state space, see coverage.model_exploration: every transition as BFS-shortest path "
+           "+ the transition; quick = seeded sample, thorough = all) forced event by event (xf = followed, xp = abandoned at "
+           "a select choice after Cancel that cannot be forced); (b) 6 fixed "
            "scenarios (receiver + 1..2 transmitters + 1..3 application threads; hooks that lock and mutate; hook / transmit / "
            "unmarshal errors; cancel races) with every combination of choices inside sliding windows of 3 consecutive "
            "scheduling decisions, seeded random scenarios under seeded random schedules; distinct by line hash; every "
            "trace counts as non-trivial (each contains lock sections of at least two threads)",
-    "C14": "as C13 plus schedules with a real 1 ms ticker (ticks nondeterministic, hidden Tick/TickTake inferred) and the "
+    "C14": "as C13 (incl. the forced model traces) plus schedules with a real 1 ms ticker (ticks nondeterministic, hidden Tick/TickTake inferred) and the "
            "whole-node scenarios with the generated DRIVER node (event exactly-once, toggles while parked/busy, receive "
            "order, failing rx hook / tx hook / unmarshal / transmit, cancel, K1) over a unix socket and net.Pipe; one case "
            "per trace / WN check / RUN line; distinct by line hash",
@@ -101,11 +106,47 @@ def run(res, replay=None):
     quick = res.tier == "quick"
     budget = (3000 if quick else 40000) if pid == "C13" else (1500 if quick else 20000)
     args = [mode, res.seed, budget] + ([] if quick else ["stress"])
+    # exhaustive exploration of the model for one receiver + one transmitter + one application thread;
+    # its transitions become schedules that the harness forces on the implementation
+    gen_dir = vlib.scratch_dir()
+    try:
+        _run_with_model_traces(res, pid, mode, quick, args, gen_dir)
+    finally:
+        shutil.rmtree(gen_dir, ignore_errors=True)
+    if not quick and pid == "C13":
+        _race_stress(res)
+
+
+def _run_with_model_traces(res, pid, mode, quick, args, gen_dir):
+    explo = None
+    try:
+        drv = vlib.build_driver("runner")
+        gen_file = os.path.join(gen_dir, "model-traces.txt")
+        limit = (3000 if pid == "C13" else 2000) if quick else 0
+        rc, out = vlib.sh([drv, "gen", gen_file, str(limit), str(res.seed)], timeout=900)
+        m = re.search(r"GEN states=(\d+) transitions=(\d+) depth=(\d+) written=(\d+)", out)
+        if rc == 0 and m:
+            explo = {
+                "configuration": "receiver 1, transmitter 2 (event message, no ticker), application thread 0x10; content in {0,1}; "
+                                 "ghost counters erased from the state identity",
+                "bound": "none on depth: the complete reachable abstract state space (BFS to fixpoint, every event of the alphabet "
+                         "tried in every state)",
+                "states": int(m.group(1)), "transitions": int(m.group(2)), "bfs_depth": int(m.group(3)),
+                "traces_replayed": int(m.group(4)),
+                "replay": "every transition" if limit == 0 else "seeded sample of %d transitions" % limit,
+            }
+            args = args + ["dir=" + gen_file]
+        else:
+            explo = {"error": "model exploration failed: " + out[-300:]}
+    except Exception as e:  # the remaining schedules still run
+        explo = {"error": repr(e)}
     vlib.standard_run(
         res, "runner", args, "runner", RULES[pid],
         ["the LTS Runner/Lts.v is a faithful transcription of run.go's statement order and of the generated "
          "SetCyclicTransmissionEnabled / Transmit / wake-up channel code: checked on every run by trace inclusion of the "
-         "logged schedules (sampled: windowed enumeration + seeded random, not exhaustive)",
+         "logged schedules (the 1 receiver + 1 transmitter + 1 application configuration: every transition of the "
+         "completely explored model forced on the code in the thorough tier, a seeded sample in the quick tier; larger "
+         "configurations: windowed enumeration + seeded random)",
          "sync.Mutex, channels, select and time.Ticker behave as modelled (one owner; capacity-1 wake-up channel with "
          "non-blocking send; rendezvous event channel; ticker buffer of one, Stop leaves a buffered tick)",
          "the OCaml driver inserts only Apply / Tick / TickTake events (not observable at the interfaces)",
@@ -113,5 +154,4 @@ def run(res, replay=None):
         driver_args=[mode], timeout=1500 if quick else 3000, known_matcher=_known_matcher(pid),
         corr_name="every logged trace of the real runner under forced schedules is accepted by the extracted step_fn and "
                   "satisfies the trace predicates (harness/runner | ocaml/runner_main.ml %s)" % mode)
-    if not quick and pid == "C13":
-        _race_stress(res)
+    res.cov["model_exploration"] = explo
